@@ -169,6 +169,10 @@ def conclude(prop, a, cfg, results, twins, stability, kani, seed, t0):
         verified_now = sorted(qual(f) for f, d in R.functions.items() if d["success"])
         if a.rebaseline:
             new_base[u] = {"verified": verified_now, "trusted": sorted(set(tb))}
+            if base.get(u, {}).get("partial"):
+                # functions that fail only at known-finding sites: recorded by the checks that list such findings;
+                # a rebaseline through a property without findings must not forget them
+                new_base[u]["partial"] = dict(base[u]["partial"])
             ub = new_base[u]
         bl = set(ub.get("verified", []))
         if not a.rebaseline and sorted(set(tb)) != ub.get("trusted", []):
